@@ -99,12 +99,18 @@ def explore(res, rng, n, exhaustive=None):
         k += 1
         data = [v / 100.0 for v in hc]
         fs = (lcc.astmRainflowCounting, lcc.astmRangePairCounting, lcc.astmRainflowRepeatHistoryCounting)
-        base = [tab(f, data) for f in fs]
-        if base[0] != base[1] or base[0] != base[2]:
-            continue
         digits = (sum(hc) + k) % 2
-        with cyc.with_atol(digits):
-            got = [tab(f, data) for f in fs]
+        try:
+            base = [tab(f, data) for f in fs]
+            if base[0] != base[1] or base[0] != base[2]:
+                continue
+            with cyc.with_atol(digits):
+                got = [tab(f, data) for f in fs]
+        except Exception as e:  # noqa
+            res.failures.append({'signature': f'C04:closed:raised:{type(e).__name__}:{enc_list(hc)}',
+                                 'clause': 'a counter raised on a closed history (0.01 grid): ' + type(e).__name__ + ' ' + str(e)[:80],
+                                 'input': hc, 'scale': 'x 0.01', 'atol_digits': digits})
+            continue
         res.evaluations += 1
         res.stat('config_atol_%d' % digits)
         if got[0] != got[1] or got[0] != got[2]:
